@@ -513,6 +513,8 @@ def call_value(ev: Ev, fv, args, kwargs, node):
             return apply_contract(ev, contract, ([recv] if recv is not None else []) + args, kwargs, node)
     if isinstance(fv, VClass):
         return construct(ev, fv, args, kwargs, node)
+    if isinstance(fv, VRef) and isinstance(ev.st.obj(fv), Obj):
+        return call_method(ev, fv, "__call__", args, kwargs, node)
     if isinstance(fv, VGlobal):
         return call_global(ev, fv.name, args, kwargs, node)
     if isinstance(fv, VOpaque):
